@@ -202,12 +202,12 @@ fn check(case: &SemCase, net: &Net, f: &F) -> Verdict {
 }
 
 impl Property for C12 {
-    type Raw = RawSem;
+    type Raw = crate::scale::WithMid<RawSem>;
     fn id(&self) -> &'static str {
         "C12"
     }
     fn rule(&self) -> String {
-        "random network x closed extended formula in which the two patterns and near-misses (other variable, domain on the binder, extra operator, swapped AG/EF) are planted at random positions: root, under every operator, inside quantifier scopes with any binder name, inside domain-restricted scopes; networks with constrained parameters. Oracle: tool(original) == tool(pattern-defeating rewrite), alone and in a batch [rewrite, original, original]; point-wise comparison with the explicit evaluator (32 colours) through the 4 extended entry points. Non-trivial: a true pattern occurs below the root or inside a scope.".into()
+        "random network x closed extended formula in which the two patterns and near-misses (other variable, domain on the binder, extra operator, swapped AG/EF) are planted at random positions: root, under every operator, inside quantifier scopes with any binder name, inside domain-restricted scopes; networks with constrained parameters. Oracle: tool(original) == tool(pattern-defeating rewrite), alone and in a batch [rewrite, original, original]; point-wise comparison with the explicit evaluator (32 colours) through the 4 extended entry points. ~1 % of the random cases are generated 7-10-variable networks, and a deterministic stage runs 30 / 300 pattern-rich formulae on the three bundled models that afford a state variable; there the generic meaning is computed by the reference symbolic evaluator (refsym.rs, no shortcuts; calibrated against the explicit one at the start of the run). Non-trivial: a true pattern occurs below the root or inside a scope (small cases); temporal or hybrid operator with a result that is neither empty nor everything (scale cases).".into()
     }
     fn assumptions(&self) -> Vec<String> {
         vec!["same trusted base as C01/C02".into(), "`{x} & {x}` in place of `{x}` is logically identical and is not recognised as a pattern (verified by reading the recogniser; if the recogniser is extended this rewrite must be revisited)".into()]
@@ -215,10 +215,15 @@ impl Property for C12 {
     fn cases(&self, tier: Tier) -> u32 {
         tier.pick(30_000, 1_000_000)
     }
-    fn strategy(&self, tier: Tier) -> BoxedStrategy<RawSem> {
-        raw_sem_weighted(tier.pick(3, 4), 1..=1, 5, tier.pick(14, 20), 10)
+    fn strategy(&self, tier: Tier) -> BoxedStrategy<crate::scale::WithMid<RawSem>> {
+        crate::scale::with_mid(raw_sem_weighted(tier.pick(3, 4), 1..=1, 5, tier.pick(14, 20), 10), 99, 10, tier.pick(600, 2500))
     }
-    fn check_raw(&self, raw: &RawSem) -> Verdict {
+    fn check_raw(&self, raw: &crate::scale::WithMid<RawSem>) -> Verdict {
+        let raw = match raw {
+            crate::scale::WithMid::Small(r) => r,
+            // mid-size networks: the generic evaluation is the reference symbolic evaluator's
+            crate::scale::WithMid::Mid(raw, ms) => return crate::scale::check_mid("C12", raw, *ms, FCfg::EXTENDED_WEAK),
+        };
         let resolved = resolve_sem_with(raw, FCfg::EXTENDED_WEAK, |env, raws| {
             let f = crate::gen::resolve_f(&raws[0], env);
             let mut classes = vec![];
@@ -241,6 +246,24 @@ impl Property for C12 {
         }
     }
     fn replay(&self, case: &Value) -> Verdict {
+        if let Some(v) = crate::scale::replay_scale("C12", case) {
+            return v;
+        }
         replay_with(case, |case, net, fs| check(case, net, &fs[0]))
+    }
+    fn extra_stages(&self, tier: Tier, seed: u64, stats: &mut Stats) -> Option<Failure> {
+        // bundled models small enough for a state variable: pattern-rich formulae against the
+        // reference symbolic evaluator (which has no shortcut for the patterns)
+        crate::scale::calibrate(seed, tier.pick(1500, 20_000), FCfg::EXTENDED_WEAK, stats);
+        crate::scale::bundled_scale_stage(
+            "C12",
+            &crate::scale::SCALE_HYBRID_OK,
+            tier.pick(30, 300),
+            seed,
+            std::time::Duration::from_secs(tier.pick(5, 30)),
+            FCfg::EXTENDED_WEAK,
+            10,
+            stats,
+        )
     }
 }
